@@ -110,6 +110,7 @@ def place_storage(draw, loops, tensors, lower_levels):
 def to_af_mapping(tree):
     from accelforge.frontend.mapping import Compute, Mapping, Storage, Temporal, Sequential, Nested
     from accelforge.frontend.mapping import Toll as MToll
+    from accelforge.frontend.mapping import Spatial as MSpatial
 
     def conv(nodes):
         out = []
@@ -124,6 +125,8 @@ def to_af_mapping(tree):
                 out.append(MToll(tensors=list(n["tensors"]), component=n["level"]))
             elif k == "loop":
                 out.append(Temporal(rank_variable=n["rv"], tile_shape=n["tile"]))
+            elif k == "spatial":
+                out.append(MSpatial(rank_variable=n["rv"], tile_shape=n["tile"], name=n["name"], component=n["component"]))
             elif k == "compute":
                 out.append(Compute(einsum=n["einsum"], component=n["level"]))
             elif k == "seq":
